@@ -1,0 +1,15 @@
+//go:build verif
+
+package ech
+
+import "time"
+
+// VerifSetClock replaces the clock the resolver cache reads (nil restores
+// time.Now). It exists only in builds with the verif tag and lets a simulator
+// move the cache's notion of time while lookups are in flight.
+func VerifSetClock(now func() time.Time) {
+	if now == nil {
+		now = time.Now
+	}
+	timeNow = now
+}
